@@ -431,6 +431,9 @@ func unpackEngine(c *Ctx) {
 	// permanent corpus of header lists that once panicked or are traps
 	corpus := []string{
 		"unpack tar " + lossless + " - none -",
+		// mtime=now: the filter's usage error is dropped for conjured parents and surfaces at the entry itself
+		"unpack tar uid=7,gid=mine,mtime=now,sticky=follow,setid=follow,dev=follow - none " + RawHdr{Name: "a/b/c", Typeflag: '0', Mode: 0644}.tok(),
+		"unpack tar uid=follow,gid=follow,mtime=now,sticky=follow,setid=reject,dev=reject - none " + RawHdr{Name: "./", Typeflag: '5', Mode: 0755}.tok() + ";" + RawHdr{Name: "d/x", Typeflag: '0', Mode: 04755}.tok(),
 		// the root itself is a device node and the filter ejects devices: nothing is left (was an index-out-of-range panic)
 		"unpack tar uid=follow,gid=follow,mtime=follow,sticky=follow,setid=follow,dev=ignore - none " + RawHdr{Name: ".", Typeflag: '3', Mode: 0666, Maj: 1, Min: 3}.tok(),
 		"unpack tar uid=follow,gid=follow,mtime=follow,sticky=follow,setid=follow,dev=ignore - none " + RawHdr{Name: ".", Typeflag: '4', Mode: 0666, Maj: 8, Min: 0}.tok() + ";" + RawHdr{Name: "a", Typeflag: '0', Mode: 0644}.tok(),
